@@ -236,11 +236,17 @@ func (s *System) removeFuture(agentRef *AgentRef) {
 }
 
 func (s *System) removeFuturesByAgentPath(agentPath vivid.ActorPath, err error) {
+	// 在持锁期间拷贝路径：内层 map 会被 appendFuture / removeFuture 在持锁下并发修改（例如根 Actor 终止时，
+	// 外部协程仍在通过 System.Ask 登记 Future），解锁后直接遍历它属于并发读写；
+	// 而 Close 会经由 removeFuture 再次加锁，因此不能在持锁期间关闭
 	s.futureLock.Lock()
-	refs := s.futureAgents[agentPath]
+	refs := make([]vivid.ActorPath, 0, len(s.futureAgents[agentPath]))
+	for ref := range s.futureAgents[agentPath] {
+		refs = append(refs, ref)
+	}
 	s.futureLock.Unlock()
 
-	for ref := range refs {
+	for _, ref := range refs {
 		if ctx, ok := s.actorContexts.Load(ref); ok {
 			if f, ok := ctx.(*future.Future[vivid.Message]); ok {
 				f.Close(err)
